@@ -188,14 +188,23 @@ class BirthDeath(Distribution):
         ).sum(-1)
 
         y = self.origin - tip_heights
+        # tips sampled at the present are rho-sampled when rho > 0
+        is_rho_tip = (y == self.origin).logical_and(self.rho > 0.0)
         if serially_sampled:
             log_p += (
-                torch.log(self.psi)
-                - self.log_q(
-                    A,
-                    B,
-                    y,
-                    self.origin,
+                (
+                    torch.log(self.psi)
+                    - self.log_q(
+                        A,
+                        B,
+                        y,
+                        self.origin,
+                    )
                 )
+                * (~is_rho_tip)
             ).sum(-1)
+        log_p += (
+            is_rho_tip
+            * torch.where(self.rho > 0.0, self.rho, torch.ones_like(self.rho)).log()
+        ).sum(-1)
         return log_p
